@@ -18,7 +18,10 @@ func TestMain(m *testing.M) { hx.Main(m, "C05") }
 
 type S struct{ A int }
 
-var vals = []interface{}{1, 2, "x", "y", true, 3.5, S{1}, S{2}}
+// pool of argument values (every type the statement lists, near-equal floats, same number in different types); each case
+// works on a drawn permutation of it, the first nvals entries being the values that occur in requests
+var pool = []interface{}{1, 2, "x", "y", true, 3.5, S{1}, S{2}, false, "", "1", int64(1), 2.000001, 2.000002, 0.1234567, float32(1.5), uint8(2)}
+var vals = pool
 
 type req struct {
 	t     uint64 // ms
@@ -151,12 +154,14 @@ func thr(r *hotspot.Rule, v interface{}) int64 {
 
 func TestPerValueShaping(t *testing.T) {
 	hx.Check(t, hx.N{Quick: 15000, Thorough: 160000}, func(t *rapid.T, c *hx.Case) {
+		vals = rapid.Permutation(pool).Draw(t, "values")
 		selector := rapid.IntRange(0, 4).Draw(t, "selector")
 		rules := []*hotspot.Rule{drawRule(t, c, "r0", selector)}
 		if rapid.IntRange(0, 3).Draw(t, "second") == 0 {
 			rules = append(rules, drawRule(t, c, "r1", selector))
 		}
 		nvals := rapid.IntRange(1, 5).Draw(t, "nvals")
+		c.Op("values in use: %#v", vals[:nvals])
 		capKind := rapid.IntRange(0, 3).Draw(t, "capacity")
 		small := false
 		for _, r := range rules {
